@@ -364,6 +364,7 @@ fn check_test(rules: &str, specs: &[String], evals: &mut u64) -> Result<Option<u
     write_file(&rp, rules);
     let o = TOpts { fmt: Fmt::Json, verbose: false, alphabetical: false, last_modified: false };
     let mut alone = vec![];
+    let mut any_unmet = false;
     for (i, s) in specs.iter().enumerate() {
         let tp = dir.join(format!("one/x_{}.json", i));
         write_file(&tp, &format!("[{}]", s));
@@ -377,6 +378,29 @@ fn check_test(rules: &str, specs: &[String], evals: &mut u64) -> Result<Option<u
         }
         let j: J = serde_json::from_str(&r.out).map_err(|e| (format!("test -o json: not JSON: {}", e), "c12:test-json".to_string()))?;
         alone.push(sort_case(&j["test_cases"][0]));
+        any_unmet |= r.code == Ok(7);
+        // modification times run against the file names
+        let t = std::time::SystemTime::UNIX_EPOCH + std::time::Duration::from_secs(1_600_000_000 + ((specs.len() - i) as u64) * 100);
+        let _ = std::fs::File::options().write(true).open(&tp).and_then(|f| f.set_modified(t));
+    }
+    // the one-case files as a directory of test files, walked by name and by time, in every format:
+    // the run fails iff some file does alone
+    let one = dir.join("one").to_string_lossy().to_string();
+    for fmt in [Fmt::Single, Fmt::Json, Fmt::Yaml, Fmt::Junit] {
+        for (a, m) in [(true, false), (false, true), (false, false)] {
+            *evals += 1;
+            let r = test_files(&rp.to_string_lossy(), &one, &TOpts { fmt, verbose: false, alphabetical: a, last_modified: m });
+            if let Some(p) = &r.panic {
+                return Err((format!("test -t <dir>: panic {}", p), format!("panic:{}", p.split(' ').next().unwrap_or(""))));
+            }
+            let want = if any_unmet { 7 } else { 0 };
+            if r.code != Ok(want) {
+                return Err((
+                    format!("test -t <directory of {} one-case files> ({:?}{}{}) exits {:?}, but run alone the files exit 7: {}", specs.len(), fmt, if a { " -a" } else { "" }, if m { " -m" } else { "" }, r.code, any_unmet),
+                    "c12:test-files-exit-code".into(),
+                ));
+            }
+        }
     }
     let tp = dir.join("all/x_all.json");
     write_file(&tp, &format!("[{}]", specs.join(",")));
@@ -408,7 +432,25 @@ fn random_test(u: &mut Choices, sz: Size) -> CaseResult {
     let mut specs = vec![];
     for i in 0..n {
         let d = if i == 0 { doc.clone() } else { gen_cfn_doc(u, &sz) };
-        let exps: Vec<String> = f.rules.iter().map(|r| format!("\"{}\": \"{}\"", r.name, ["PASS", "FAIL", "SKIP"][u.below(3)])).collect();
+        // half of the cases state what the rules really evaluate to (a file whose expectations are
+        // all met), the others state a random status per rule
+        let truth = if u.chance(1, 2) {
+            match verdict(&d.to_json(), &rules).0 {
+                Verdict::Ok { rules, .. } => Some(rules),
+                _ => None,
+            }
+        } else {
+            None
+        };
+        let exps: Vec<String> = f
+            .rules
+            .iter()
+            .map(|r| {
+                let random = ["PASS", "FAIL", "SKIP"][u.below(3)];
+                let st = truth.as_ref().and_then(|t| t.iter().find(|(n, _)| n.rsplit('/').next() == Some(r.name.as_str())).map(|(_, s)| s.text())).unwrap_or(random);
+                format!("\"{}\": \"{}\"", r.name, st)
+            })
+            .collect();
         specs.push(format!("{{\"name\": \"c{}\", \"input\": {}, \"expectations\": {{\"rules\": {{{}}}}}}}", i, d.to_json(), exps.join(", ")));
     }
     let mut evals = 0;
